@@ -58,6 +58,44 @@ fn op_name(op: &str) -> String {
     }
 }
 
+/// The parse-time macro expansions, written out from the CEL macro definitions: the expected
+/// tree of `r.m(x, args...)`; None when (m, argument count) is not a macro.
+fn macro_expected(r: &T, m: &str, args: &[T]) -> Option<String> {
+    let arity_ok = match m {
+        "all" | "exists" | "exists_one" | "existsOne" | "filter" => args.len() == 2,
+        "map" => args.len() == 2 || args.len() == 3,
+        _ => false,
+    };
+    if !arity_ok {
+        return None;
+    }
+    let x = match &args[0] {
+        T::Id(x) => *x,
+        _ => panic!("macro variable must be a name"),
+    };
+    let accu = "(id 64 114 101 115 117 108 116)".to_string();
+    let call = |f: &str, a: &[String]| format!("(call {} none {})", sx_str(f), a.join(" "));
+    let t = "(lit (bool true))".to_string();
+    let p = expected(&args[1]);
+    let (init, cond, step, res) = match m {
+        "all" => (t.clone(), call("@not_strictly_false", &[accu.clone()]), call("_&&_", &[accu.clone(), p]), accu.clone()),
+        "exists" => ("(lit (bool false))".to_string(), call("@not_strictly_false", &[call("!_", &[accu.clone()])]),
+                     call("_||_", &[accu.clone(), p]), accu.clone()),
+        "exists_one" | "existsOne" => ("(lit (int 0))".to_string(), t.clone(),
+                     call("_?_:_", &[p, call("_+_", &[accu.clone(), "(lit (int 1))".to_string()]), accu.clone()]),
+                     call("_==_", &[accu.clone(), "(lit (int 1))".to_string()])),
+        "filter" => ("(list)".to_string(), t.clone(),
+                     call("_?_:_", &[p, call("_+_", &[accu.clone(), format!("(list {})", expected(&args[0]))]), accu.clone()]), accu.clone()),
+        _ => {
+            let f = expected(&args[args.len() - 1]);
+            let step = call("_+_", &[accu.clone(), format!("(list {})", f)]);
+            let step = if args.len() == 3 { call("_?_:_", &[p, step, accu.clone()]) } else { step };
+            ("(list)".to_string(), t.clone(), step, accu.clone())
+        }
+    };
+    Some(format!("(comp {} {} {} {} {} {} {})", expected(r), sx_str(x), sx_str("@result"), init, cond, step, res))
+}
+
 pub fn expected(t: &T) -> String {
     match t {
         T::Id(n) => {
@@ -76,6 +114,11 @@ pub fn expected(t: &T) -> String {
         T::Neg(a) => format!("(call {} none {})", sx_str("-_"), expected(a)),
         T::Sel(a, f) => format!("(sel {} {} false)", expected(a), sx_str(f)),
         T::Idx(a, i) => format!("(call {} none {} {})", sx_str("_[_]"), expected(a), expected(i)),
+        T::MCall(r, f, args) if macro_expected(r, f, args).is_some() => macro_expected(r, f, args).unwrap(),
+        T::GCall("has", args) if args.len() == 1 => match &args[0] {
+            T::Sel(a, f) => format!("(sel {} {} true)", expected(a), sx_str(f)),
+            _ => panic!("has() needs a field selection"),
+        },
         T::MCall(r, f, args) => {
             let mut o = format!("(call {} (some {})", sx_str(f), expected(r));
             for a in args {
@@ -292,12 +335,30 @@ fn random_tree(rng: &mut Rng, depth: u32) -> T {
         9 => T::Sel(b(rng), "f"),
         10 => T::Idx(b(rng), b(rng)),
         11 => {
-            let n = rng.below(3);
-            T::MCall(b(rng), "m", (0..n).map(|_| random_tree(rng, d)).collect())
+            if rng.chance(1, 3) {
+                // a macro call: the expander runs around the receiver's and the arguments' trees
+                let m = *rng.pick(&["all", "exists", "exists_one", "existsOne", "filter", "map", "map3"]);
+                let x = T::Id(*rng.pick(&["x", "a", "it"]));
+                if m == "map3" {
+                    T::MCall(b(rng), "map", vec![x, random_tree(rng, d), random_tree(rng, d)])
+                } else {
+                    T::MCall(b(rng), m, vec![x, random_tree(rng, d)])
+                }
+            } else {
+                // macro names at other argument counts are plain calls
+                let n = rng.below(3);
+                let f = if n != 2 && rng.chance(1, 4) { *rng.pick(&["all", "exists", "filter", "has"]) } else { "m" };
+                T::MCall(b(rng), f, (0..n).map(|_| random_tree(rng, d)).collect())
+            }
         }
         12 => {
-            let n = rng.below(3);
-            T::GCall("g", (0..n).map(|_| random_tree(rng, d)).collect())
+            if rng.chance(1, 4) {
+                T::GCall("has", vec![T::Sel(b(rng), "f")])
+            } else {
+                let n = rng.below(3);
+                let f = if n != 1 && rng.chance(1, 4) { "has" } else if rng.chance(1, 6) { *rng.pick(&["all", "map"]) } else { "g" };
+                T::GCall(f, (0..n).map(|_| random_tree(rng, d)).collect())
+            }
         }
         _ => {
             if rng.chance(1, 4) {
